@@ -212,6 +212,14 @@ def _worker_init():
     import warnings
     warnings.filterwarnings("ignore", message="Generating overly large repr")
     quiet_stdout()
+    try:
+        # a mutated tree may reach input()/breakpoint(): make stdin an immediate EOF instead of a hang
+        fd = os.open(os.devnull, os.O_RDONLY)
+        os.dup2(fd, 0)
+        os.close(fd)
+        sys.stdin = open(0, closefd=False)
+    except OSError:
+        pass
 
 
 def _safe_judge(mod, case):
